@@ -103,6 +103,7 @@ class State:
         self.fields = {}            # (class name, attr) -> (z3 Array Int->sort, Kind)
         self.field_kinds = {}       # (class name, attr) -> Kind
         self.field_inv = {}         # (class name, attr) -> fn(term) -> z3 Bool: invariant of the field, assumed at every read
+        self.field_len = {}         # (class name, attr) -> z3 Array(Int->Int): companion lengths of a bytes-valued field
         self.class_over = {}        # (class qualname, attr) -> value   (class attributes mutated at run time)
         self.events = []            # ghost event log
         self.ghost = {}
@@ -120,6 +121,9 @@ class State:
             raise Unsupported('field %s.%s of a symbolic object is not declared in the sidecar' % key)
         arr, kind = self.fields[key]
         t = z3.simplify(z3.Select(arr, so.ref))
+        la = self.field_len.get(key)
+        if la is not None and ops.known_len(t) is None and t.get_id() not in ops.LEN_TERM:
+            ops.set_len_term(t, z3.simplify(z3.Select(la, so.ref)))      # companion length of a bytes field
         inv = self.field_inv.get(key)
         if inv is not None:
             self.interp.ctx.assume(inv(t))
@@ -130,7 +134,11 @@ class State:
         if key not in self.fields:
             raise Unsupported('field %s.%s of a symbolic object is not declared in the sidecar' % key)
         arr, kind = self.fields[key]
-        self.fields[key] = (z3.Store(arr, so.ref, self.interp.unwrap(value, kind)), kind)
+        vt = self.interp.unwrap(value, kind)
+        self.fields[key] = (z3.Store(arr, so.ref, vt), kind)
+        la = self.field_len.get(key)
+        if la is not None:
+            self.field_len[key] = z3.Store(la, so.ref, ops.blen(vt))
 
 
 class Interp:
